@@ -651,6 +651,10 @@ func runTxsX(w *world, block *types.Block, situation string, chain *ctlChain) (o
 
 // ---------------------------------------------------------------------------------------------
 func main() {
+	if job := os.Getenv("C01_LIFECYCLE_JOB"); job != "" {
+		lifecycleMain(job)
+		return
+	}
 	if job := os.Getenv("C01_CHILD_JOB"); job != "" {
 		childMain(job)
 		return
@@ -948,6 +952,9 @@ func main() {
 
 	// ---- L7 proposer (casting, wall clock) vs verifier ----
 	castSearch(a, rng, res, nBlk/4)
+
+	// ---- L12 first start vs restart ----
+	lifecycleSearch(a, rng, res)
 
 	// ---- L10 the node's own head height; L11 block helpers keep their arguments, roles, re-execution ----
 	headHeightSearch(a, rng, res)
